@@ -122,15 +122,19 @@ def consumer_worker(unit, emit):
             emit.trace([{'kind': 'w_eq', 'file': 'gs1_ai', 'got': lib.cps(got), 'want': lib.cps(want)}],
                        {'m': 'gs1_128', 'w': '%s=%r' % (ai, value), 'how': 'GS1 AI round trip', 'site': r1['site']})
         elif kind == 'KEY':
-            modname, fn, number, props, how = it
+            modname, fn, number, props, how = it[:5]
+            rel = it[5] if len(it) > 5 else 'w_eq'
             mod = importlib.import_module('stdnum.' + modname)
             r = lib.call(getattr(mod, fn), number)
-            if r['k'] == 'ret' and r['t'] == 'dict':
+            if r['k'] == 'ret' and r['t'] == 'str':
+                emit.trace([{'kind': 'w_eq', 'file': modname, 'got': lib.cps(lib.from_cps(r['v'])), 'want': lib.cps(props)}],
+                           {'m': modname, 'w': number, 'how': how, 'site': ''})
+            elif r['k'] == 'ret' and r['t'] == 'dict':
                 d = dict((k, v) for k, v in json.loads(r['j'])['dict'])
                 got = sorted([[lib.cps(str(k)), lib.cps(str(v))] for k, v in d.items()])
                 want = sorted([[lib.cps(k), lib.cps(v)] for k, v in props])
                 # the consumer may add nothing and drop nothing of the entry
-                emit.trace([{'kind': 'w_eq', 'file': modname, 'got': got, 'want': want}],
+                emit.trace([{'kind': rel, 'file': modname, 'got': got, 'want': want}],
                            {'m': modname, 'w': number, 'how': how, 'site': ''})
             else:
                 got = lib.cps(r['cls'] or r['t'])
@@ -215,9 +219,43 @@ def main():
         units.append(('ISBN', isbns[i::8]))
     # registry keys handed to the consumers' info() functions
     keys = []
-    for e in trees['at/postleitzahl']:
+    for e in trees['at/postleitzahl'][::1]:
         keys.append(('at.postleitzahl', 'info', lib.from_cps(e['low']), dedupe(e['props']), 'at/postleitzahl entry'))
-    units.append(('KEY', keys))
+    def lo(e):
+        return lib.from_cps(e['low'])
+    for e in trees['at/fa']:
+        keys.append(('at.tin', 'info', lo(e) + '0000000', dedupe(e['props']), 'at/fa entry'))
+    seen_ein = {}
+    for e in trees['us/ein']:
+        seen_ein[lo(e)] = dict(e['props']).get('campus', '')          # later lines override earlier ones (a known finding for 46)
+    for k, campus in sorted(seen_ein.items()):
+        keys.append(('us.ein', 'get_campus', k + '0000000', campus, 'us/ein entry'))
+    for e in trees['my/bp']:
+        keys.append(('my.nric', 'get_birth_place', '000101' + lo(e) + '0000', dedupe(e['props']), 'my/bp entry', 'w_sub'))
+    for e in trees['cn/loc'][::7 if chk.tier == 'quick' else 1]:
+        keys.append(('cn.ric', 'get_birth_place', lo(e) + '199001010010', dedupe(e['props']), 'cn/loc entry', 'w_sub'))
+    for e in trees['cz/banks']:
+        keys.append(('cz.bankaccount', 'info', '19-2000145399/' + lo(e), dedupe(e['props']), 'cz/banks entry', 'w_sub'))
+    for e in trees['nz/banks']:
+        for k in e['kids'][::9 if chk.tier == 'quick' else 1]:
+            keys.append(('nz.bankaccount', 'info', lo(e) + lo(k) + '000000000', dedupe(e['props'] + k['props']), 'nz/banks branch', 'w_sub'))
+
+    def nace(level, prefix, props):
+        for e in level:
+            if not lo(e)[0].isdigit():
+                continue
+            pr = props + e['props']
+            keys.append(('eu.nace', 'info', prefix + lo(e), dedupe(pr), 'eu/nace entry', 'w_eq'))
+            nace(e['kids'], prefix + lo(e), pr)
+    nace(trees['eu/nace'], '', [])
+    for e in trees['isil']:
+        keys.append(('isil', 'validate', lo(e).rstrip('$') + '-1', lo(e).rstrip('$') + '-1', 'isil agency prefix'))
+    for e in trees['imsi'][::3 if chk.tier == 'quick' else 1]:
+        for k in e['kids'][:2 if chk.tier == 'quick' else 99]:
+            if len(lo(k)) in (2, 3):
+                keys.append(('imsi', 'info', lo(e) + lo(k) + '0000000000'[:15 - len(lo(e) + lo(k))], dedupe(e['props'] + k['props']), 'imsi network', 'w_sub'))
+    for i in range(0, len(keys), 600):
+        units.append(('KEY', keys[i:i + 600]))
     sh = chk.drive(units, consumer_worker, shuffle=False)
     extra2 = run.merge_extra(sh)
     rej = chk.validate('Trace_Registry', sh, own_clauses={'R1', 'R2', 'R2n', 'R3', 'W1', 'W2'})
